@@ -163,8 +163,12 @@ def run_duplex(kind, leading, runtime):
             async with cm as resp:
                 ns = resp.extensions["network_stream"]
                 got = bytearray()
-                while len(got) < len(leading):
-                    got += await ns.read(max_bytes=65536, timeout=5)
+                with anyio.move_on_after(2.0):
+                    while len(got) < len(leading):
+                        part = await ns.read(max_bytes=65536, timeout=5)
+                        if not part:
+                            break
+                        got += part
                 mark = len(be.s.written)
 
                 async def reader():
@@ -186,8 +190,13 @@ def run_duplex(kind, leading, runtime):
                             await anyio.sleep(0.01)
                     tg.cancel_scope.cancel()
             out["outcome"] = "complete" if bytes(got) == leading else "leading-data-wrong"
+    async def bounded():
+        with anyio.move_on_after(15.0) as sc:
+            await main()
+        if sc.cancelled_caught:
+            out["outcome"] = "hang"
     try:
-        anyio.run(main, backend=runtime)
+        anyio.run(bounded, backend=runtime)
     except BaseException as e:  # noqa
         out["outcome"] = "error:" + type(e).__name__
         out["exc"] = repr(e)[:200]
